@@ -13,7 +13,7 @@
    (the hash), `nlen` (name length) and `H` (header length) are arbitrary. *)
 From Coq Require Import List NArith ZArith Bool.
 From Tele Require Import Gen.Consts Model.FileConc Proofs.FileConcBase Proofs.FileConcInv
-  Proofs.FileConcThms Proofs.FileConcWitness Proofs.FileConcInv2 Proofs.FileConcProgress Proofs.FileConcOracle.
+  Proofs.FileConcThms Proofs.FileConcWitness Proofs.FileConcInv2 Proofs.FileConcProgress Proofs.FileConcOracle Proofs.FileConcShapes.
 Import ListNotations.
 Open Scope N_scope.
 
@@ -135,6 +135,27 @@ Theorem C04_failures_classified : forall bucket nlen H st0 sched, init_ok bucket
     e = FEmpty \/ e = FTooLong \/ e = FBeyond \/ e = FTries \/ e = FRange.
 Proof. exact failures_classified. Qed.
 Print Assumptions C04_failures_classified.
+
+(* WHEN a call can fail, at every reachable state of every schedule: the
+   failures one step appends to a process's results are its own argument
+   (FEmpty, FTooLong), the 4 GiB test (FRange), FBeyond only if the process
+   has already reserved and written its record (`mine`: it is in the link
+   loop), FTries only after ten re-maps (t_tries counts them).  So a call that
+   has reserved nothing and re-mapped fewer than ten times is never failed by
+   what other processes do: the two shapes of the known finding
+   survivor-errcorrupt are the only ones; the runner reports any other
+   errCorrupt of a survivor as class survivor-errcorrupt-early. *)
+Theorem C04_failure_shapes : forall bucket nlen H st0 sched i t,
+  init_ok bucket nlen H st0 ->
+  nth_error (snd (run bucket nlen H sched st0)) i = Some t ->
+  let f := fst (run bucket nlen H sched st0) in
+  exists l, t_res (snd (step_thread bucket nlen H i f t)) = t_res t ++ l /\
+    forall e, In (RFail e) l ->
+      e = FEmpty \/ e = FTooLong \/ e = FRange \/
+      (e = FBeyond /\ mine i f (t_start t) (t_nm t) true true) \/
+      (e = FTries /\ 10 <= t_tries t).
+Proof. exact failure_shapes_reachable. Qed.
+Print Assumptions C04_failure_shapes.
 
 (* nonblocking.  phi (Proofs/FileConcProgress.v) bounds the
    steps a process still needs for its current call; it depends on the file
